@@ -8,7 +8,7 @@ from sysloss.system import System
 from sysloss.components import Source, Converter, PLoad, RLoad, ILoad, LinReg, RLoss
 
 PROP = "C18"
-ANS = {"c": (0.12, 0.0, 0.0), "v": (0.03, -0.1, 0.0), "r": (0.02, 0.0, 0.05), "z": (0.02, 0.0, "zero"), "s": (0.0, 0.0, 0.0)}   # "s": the gauge reads the same  # six steps of any kind keep the battery alive
+ANS = {"c": (0.12, 0.0, 0.0), "v": (0.03, -0.09, 0.0), "r": (0.02, 0.0, 0.05), "z": (0.02, 0.0, "zero"), "s": (0.0, 0.0, 0.0)}   # "s": the gauge reads the same  # seven steps of any kind keep the battery alive (7 x 0.09 V < 3.7 V - cutoff, 7 x 0.12 < 1)
 TERM = {"Z": "capzero", "K": "vcut", "U": "vbelow"}
 PHASES = {"none": None, "two": {"a": 10.0, "b": 25.0}, "three": {"a": 10.0, "b": 25.0, "c": 5.0},
           "blank": {"": 10.0, "b": 25.0}}   # set_sys_phases() accepts the empty string as a phase name: it is a phase like any other
